@@ -1,2 +1,4 @@
 pub mod common;
 pub mod model_family;
+pub mod c12;
+pub mod raw_family;
